@@ -177,12 +177,12 @@ func drawCase(rt *rapid.T, st *stats.Collector) *tcase {
 	o.audit = rapid.Bool().Draw(rt, "audit")
 	if o.audit && kf.Listed(kfTrigWrites) && rapid.IntRange(0, 3).Draw(rt, "audit-keep") != 0 {
 		o.audit = false
-		st.Excluded("audit-writing-triggers(C15-trigger-writes-survive)")
+		st.Excluded("audit-writing-triggers(C23-trigger-effects-survive-failure)")
 	}
 	o.signal = rapid.SampledFrom([]string{"", "before", "before", "after"}).Draw(rt, "signal")
 	if o.signal == "after" && kf.Listed(kfAfterTrig) && rapid.IntRange(0, 3).Draw(rt, "after-keep") != 0 {
 		o.signal = "before"
-		st.Excluded("signal-in-after-trigger(C15-after-trigger-error)")
+		st.Excluded("signal-in-after-trigger(C23-after-trigger-failure-keeps-rows)")
 	}
 	o.withCh = rapid.IntRange(0, 3).Draw(rt, "withCh") != 0
 	if o.withCh && kf.Listed(kfSharedIdx) && rapid.IntRange(0, 3).Draw(rt, "ch-keep") != 0 {
@@ -724,9 +724,9 @@ func (tc *tcase) describe() string {
 
 // finding ids and their signatures (see notes/C15.md)
 const (
-	kfTrigWrites = "C15-trigger-writes-survive" // rows written by trigger bodies survive the failed statement (only additions to audit)
-	kfAfterTrig  = "C15-after-trigger-error"    // error raised by an AFTER trigger: the statement's own row changes survive
-	kfSharedIdx  = "C18-stale-index-after-failed-stmt"      // full scans unchanged, only secondary-index lookups changed
+	kfTrigWrites = "C23-trigger-effects-survive-failure"  // rows written by trigger bodies survive the failed statement (only additions to audit)
+	kfAfterTrig  = "C23-after-trigger-failure-keeps-rows" // error raised by an AFTER trigger: the statement's own row changes survive
+	kfSharedIdx  = "C18-stale-index-after-failed-stmt"    // full scans unchanged, only secondary-index lookups changed
 )
 
 // judgeNoEffect decides a failed statement: every probe must be unchanged. Deviations that
